@@ -194,10 +194,11 @@ Theorem c15_k8s_timeout_flush_refuted :
 Proof. exact k8s_timeout_flush_refuted. Qed.
 Print Assumptions c15_k8s_timeout_flush_refuted.
 
-(* the strongest true restriction: a time-out empties the buffer and only that (partial) *)
+(* the strongest true restriction: a time-out empties the buffer, emits nothing and leaves the initial state (partial;
+   since /repo 2e55483 skipNextEvent is cleared as well) *)
 Theorem c15_k8s_timeout_flush_partial : forall c tl e s co,
   k_do c {| ebuf := QUOTE :: tl; esize := e; skipNext := s; cutOff := co |} KTimeout
-  = Ok ({| ebuf := [QUOTE]; esize := 0; skipNext := s; cutOff := false |}, (ADiscard, 0, None, false)).
+  = Ok ({| ebuf := [QUOTE]; esize := 0; skipNext := false; cutOff := false |}, (ADiscard, 0, None, false)).
 Proof. exact k8s_timeout_drops. Qed.
 Print Assumptions c15_k8s_timeout_flush_partial.
 
@@ -265,26 +266,40 @@ Example c15_k8s_cut_nonvacuous :
     ([(1, 1, None, false); (1, 0, None, false); (0, 0, Some [34; 92; 110; 34]%N, true)], Ok kstate0).
 Proof. vm_compute. repeat split; reflexivity. Qed.
 
-(* ---- k8s: after a time-out the action must be as good as new (sub-model 9, k_spec_t) ------------- *)
+(* ---- k8s: after a time-out the action is as good as new (sub-model 9, k_spec_t) -------------------- *)
 (* A time-out ends the action's claim on the stream (it is not busy any more: the processor may serve any other
-   stream next), so the steps that follow must be those of a fresh action: k_spec_t.  REFUTED for the code:
-   skipNextEvent survives the time-out; when the line that timed out had exceeded max_event_size, the next line -
-   of whatever stream - is discarded up to its end (finding C15-k8s-timeout-keeps-skip) *)
-Theorem c15_k8s_timeout_fresh_refuted :
-  exists c xs, konly c = false /\ forallb frag_ok xs = true /\
-    is_ok (snd (k_run c kstate0 xs)) = true /\
-    fst (k_run c kstate0 xs) <> k_spec_t c [] xs /\
-    map (fun o : kstep => fst (fst (fst o))) (fst (k_run c kstate0 xs)) = [ACollapse; ADiscard; ADiscard; APass] /\
-    map (fun o : kstep => fst (fst (fst o))) (k_spec_t c [] xs) = [ACollapse; ADiscard; APass; APass].
-Proof. exact k8s_timeout_fresh_refuted. Qed.
-Print Assumptions c15_k8s_timeout_fresh_refuted.
-
-(* the strongest true restriction over ALL placements of time-outs: without a size limit every step is k_spec_t *)
-Theorem c15_k8s_timeout_fresh_partial : forall c xs,
-  konly c = false -> kmax c = 0 -> forallb frag_ok xs = true ->
+   stream next), so the steps that follow must be those of a fresh action: k_spec_t.  For EVERY configuration
+   (every max_event_size, cut-off on or off, every split size) and EVERY placement of time-outs, every step of the
+   model is k_spec_t.  (Before /repo 2e55483 skipNextEvent survived the time-out and this held only for
+   max_event_size = 0: former finding C15-k8s-timeout-keeps-skip, now repaired; family k8s-timeout-keeps-skip.) *)
+Theorem c15_k8s_timeout_fresh : forall c xs,
+  konly c = false -> forallb frag_ok xs = true ->
   exists st, k_run c kstate0 xs = (k_spec_t c [] xs, Ok st).
-Proof. exact k8s_timeout_fresh_partial. Qed.
-Print Assumptions c15_k8s_timeout_fresh_partial.
+Proof. exact k8s_timeout_fresh. Qed.
+Print Assumptions c15_k8s_timeout_fresh.
+
+(* what k_spec_t says: up to the first time-out the line specification k_spec; the time-out itself is a Discard that
+   emits nothing; what follows is specified exactly like the input of an action that has just been started (history
+   []: nothing of the line that timed out - buffered bytes, "skip the rest", "was cut" - survives) *)
+Theorem c15_k8s_spec_t_restart : forall c hist xs ys,
+  no_timeout xs = true ->
+  k_spec_t c hist (xs ++ KTimeout :: ys) = k_spec c hist xs ++ (ADiscard, 0, None, false) :: k_spec_t c [] ys.
+Proof. exact k_spec_t_restart. Qed.
+Print Assumptions c15_k8s_spec_t_restart.
+
+(* non-vacuity, and the behaviour BEFORE the repair excluded: max_event_size 9, "0123456789" (does not fit, the rest of
+   its line is to be skipped), time-out, the complete lines "ok" and "next".  The old code answered Collapse, Discard,
+   DISCARD, Pass (the line "ok", possibly of another stream, was lost); the model - and k_spec_t - pass both lines *)
+Example c15_k8s_timeout_fresh_nonvacuous :
+  konly k8s_fresh_cfg = false /\ forallb frag_ok k8s_fresh_witness = true /\
+  k_run k8s_fresh_cfg kstate0 k8s_fresh_witness = (k_spec_t k8s_fresh_cfg [] k8s_fresh_witness, Ok kstate0) /\
+  fst (k_run k8s_fresh_cfg kstate0 k8s_fresh_witness) =
+    [(ACollapse, 1, None, false); (ADiscard, 0, None, false);
+     (APass, 0, Some [34; 111; 107; 92; 110; 34]%N, false);
+     (APass, 0, Some [34; 110; 101; 120; 116; 92; 110; 34]%N, false)] /\
+  map (fun o : kstep => fst (fst (fst o))) (fst (k_run k8s_fresh_cfg kstate0 k8s_fresh_witness))
+    <> [ACollapse; ADiscard; ADiscard; APass].
+Proof. vm_compute. repeat split; try reflexivity. intro H; discriminate H. Qed.
 
 (* ---- the join plugin inside the pipeline (Model/C15Pipe.v, sub-model 6) ------------------------- *)
 (* "events of different streams or sources are never merged": the pipeline has one plugin instance per
